@@ -103,7 +103,7 @@ fn load(thorough: bool) -> Data {
 struct W {
     acc: Acc,
     /// panic site / abort class -> (cases, smallest index, case)
-    sites: BTreeMap<String, (u64, u64, Value)>,
+    sites: BTreeMap<String, (u64, u64, Value, String, String, bool)>,
 }
 
 fn leak(s: &str) -> &'static str {
@@ -118,7 +118,7 @@ fn w_to_json(w: &W) -> Value {
         "fails": a.fails.iter().map(|f| json!({"idx": f.idx, "case": f.case, "expected": f.expected, "observed": f.observed, "note": f.note})).collect::<Vec<_>>(),
         "known": a.known.iter().map(|(k, v)| (k.clone(), json!([v.0, v.1, v.2]))).collect::<serde_json::Map<_, _>>(),
         "samples": a.samples.iter().map(|(i, v)| json!([i, v])).collect::<Vec<_>>(),
-        "sites": w.sites.iter().map(|(k, v)| (k.clone(), json!([v.0, v.1, v.2]))).collect::<serde_json::Map<_, _>>(),
+        "sites": w.sites.iter().map(|(k, v)| (k.clone(), json!([v.0, v.1, v.2, v.3, v.4, v.5]))).collect::<serde_json::Map<_, _>>(),
     })
 }
 fn w_from_json(v: &Value) -> W {
@@ -156,39 +156,43 @@ fn w_from_json(v: &Value) -> W {
     }
     if let Some(m) = v["sites"].as_object() {
         for (k, x) in m {
-            w.sites.insert(k.clone(), (x[0].as_u64().unwrap_or(0), x[1].as_u64().unwrap_or(0), x[2].clone()));
+            w.sites.insert(k.clone(), (x[0].as_u64().unwrap_or(0), x[1].as_u64().unwrap_or(0), x[2].clone(), x[3].as_str().unwrap_or("").to_string(), x[4].as_str().unwrap_or("").to_string(), x[5].as_bool().unwrap_or(true)));
         }
     }
     w
 }
 fn w_merge(into: &mut W, o: W) {
     into.acc.merge(o.acc);
-    for (k, (n, i, c)) in o.sites {
+    for (k, (n, i, c, ob, no, fl)) in o.sites {
         match into.sites.get_mut(&k) {
             Some(e) => {
                 e.0 += n;
                 if i < e.1 {
                     e.1 = i;
                     e.2 = c;
+                    e.3 = ob;
+                    e.4 = no;
                 }
             }
             None => {
-                into.sites.insert(k, (n, i, c));
+                into.sites.insert(k, (n, i, c, ob, no, fl));
             }
         }
     }
 }
-fn note_site(w: &mut W, site: &str, idx: u64, case: &dyn Fn() -> Value) {
+fn note_site(w: &mut W, site: &str, idx: u64, case: &dyn Fn() -> Value, observed: &str, note: &str, is_fail: bool) {
     match w.sites.get_mut(site) {
         Some(e) => {
             e.0 += 1;
             if idx < e.1 {
                 e.1 = idx;
                 e.2 = case();
+                e.3 = observed.to_string();
+                e.4 = note.to_string();
             }
         }
         None => {
-            w.sites.insert(site.to_string(), (1, idx, case()));
+            w.sites.insert(site.to_string(), (1, idx, case(), observed.to_string(), note.to_string(), is_fail));
         }
     }
 }
@@ -215,7 +219,8 @@ fn source_line_cached(p: &vcore::Panic) -> String {
 fn panic_fail(w: &mut W, idx: u64, case: &dyn Fn() -> Value, p: vcore::Panic, stage: &str) {
     let site = format!("{} [{}]", p.site(), source_line_cached(&p));
     w.acc.class(&format!("PANIC {stage}: {}", vcore::clip(&site, 160)));
-    note_site(w, &format!("{stage}: {site} :: {}", vcore::clip(&p.msg, 80)), idx, case);
+    let observed = format!("panic at {}: {} [source line: {}]", p.site(), vcore::clip(&p.msg, 200), source_line_cached(&p));
+    note_site(w, &format!("{stage}: {site} :: {}", vcore::clip(&p.msg, 80)), idx, case, &observed, &format!("{stage} panicked"), known_site(&p).is_none());
     match known_site(&p) {
         Some(id) => w.acc.known(id, idx, || {
             let mut v = case();
@@ -242,7 +247,7 @@ fn check_reread(w: &mut W, idx: u64, case: &dyn Fn() -> Value, bytes: &[u8], sta
         }
         Ok(Err(e)) => {
             w.acc.class(&format!("REJECTED {stage}: {}", e.split('(').next().unwrap_or("")));
-            note_site(w, &format!("{stage}: pl_to_tfm output rejected by File::deserialize: {}", e.split('(').next().unwrap_or("")), idx, case);
+            note_site(w, &format!("{stage}: pl_to_tfm output rejected by File::deserialize: {}", e.split('(').next().unwrap_or("")), idx, case, &format!("{e} (TFM: {})", vcore::clip(&hex(bytes), 400)), &format!("{stage}: output of pl_to_tfm is not a readable TFM"), true);
             w.acc.fail(idx, case(), "pl_to_tfm output is accepted by the TFM reader", format!("{e} (TFM: {})", vcore::clip(&hex(bytes), 400)), format!("{stage}: output of pl_to_tfm is not a readable TFM"));
             return false;
         }
@@ -250,7 +255,7 @@ fn check_reread(w: &mut W, idx: u64, case: &dyn Fn() -> Value, bytes: &[u8], sta
     }
     if let Err(e) = tfmraw::parse(bytes) {
         w.acc.class(&format!("REJECTED by tfmraw {stage}"));
-        note_site(w, &format!("{stage}: pl_to_tfm output violates the size equations: {e:?}"), idx, case);
+        note_site(w, &format!("{stage}: pl_to_tfm output violates the size equations: {e:?}"), idx, case, &format!("{e:?} (TFM: {})", vcore::clip(&hex(bytes), 400)), &format!("{stage}: output of pl_to_tfm breaks the size equations"), true);
         w.acc.fail(idx, case(), "pl_to_tfm output satisfies the TFM size equations (independent reader)", format!("{e:?} (TFM: {})", vcore::clip(&hex(bytes), 400)), format!("{stage}: output of pl_to_tfm breaks the size equations"));
         return false;
     }
@@ -935,7 +940,7 @@ fn run_family(ctx: &mut Ctx, fam: &Fam, d: &Data, f: &Families, tier: &str) {
                         let case = describe_case(d, f, fam.name, at);
                         w.acc.evals += 1;
                         w.acc.class(&format!("ABORT {}", vcore::clip(&how, 60)));
-                        note_site(&mut w, &format!("abort: {}", vcore::clip(&how, 60)), at, &|| case.clone());
+                        note_site(&mut w, &format!("abort: {}", vcore::clip(&how, 60)), at, &|| case.clone(), &how, "the process did not survive this input", true);
                         w.acc.fail(at, case.clone(), "a result or a documented error, plus warnings", how, "the process did not survive this input");
                         w_merge(&mut total.lock().unwrap(), w);
                         let mut j = jobs.lock().unwrap();
@@ -953,16 +958,32 @@ fn run_family(ctx: &mut Ctx, fam: &Fam, d: &Data, f: &Families, tier: &str) {
     for m in broken.into_inner().unwrap() {
         ctx.machinery_error(m);
     }
-    let w = total.into_inner().unwrap();
+    let mut w = total.into_inner().unwrap();
     let mut sites = SITES.lock().unwrap();
-    for (k, (n, i, c)) in &w.sites {
-        sites.push(json!({"family": fam.name, "site": k, "cases": n, "first_index": i, "first_case": c}));
+    // One replayable failing case per *distinct* site over the whole run (the smallest index inside
+    // the first family that reaches the site), instead of the six smallest indices of one site.
+    let mut firsts: Vec<Fail> = vec![];
+    for (k, (n, i, c, ob, no, is_fail)) in &w.sites {
+        sites.push(json!({"family": fam.name, "site": k, "cases": n, "first_index": i, "first_case": c, "observed": ob}));
+        let key = k.split_once(": ").map(|x| x.1).unwrap_or(k).to_string(); // without the stage prefix
+        if *is_fail && SEEN_SITES.lock().unwrap().insert(key) {
+            firsts.push(Fail { idx: *i, case: c.clone(), expected: "a result or a documented error, plus warnings; output that re-reads".into(), observed: ob.clone(), note: no.clone() });
+        }
+    }
+    firsts.sort_by_key(|f| f.idx);
+    for f in &firsts {
+        SITE_REPLAYS.lock().unwrap().push((fam.name.to_string(), f.clone()));
+    }
+    if w.acc.fail_count > 0 {
+        w.acc.fails = firsts;
     }
     let is_capped = capped.load(std::sync::atomic::Ordering::Relaxed);
     ctx.push_family(fam.name, &fam.bounds, !is_capped, if is_capped { Some("wall cap hit before every index range was handed to a worker".into()) } else { None }, t0.elapsed().as_secs_f64(), w.acc);
 }
 
 static SITES: std::sync::Mutex<Vec<Value>> = std::sync::Mutex::new(vec![]);
+static SITE_REPLAYS: std::sync::Mutex<Vec<(String, Fail)>> = std::sync::Mutex::new(vec![]);
+static SEEN_SITES: std::sync::Mutex<std::collections::BTreeSet<String>> = std::sync::Mutex::new(std::collections::BTreeSet::new());
 
 /// Description of a case without running it.
 fn describe_case(d: &Data, f: &Families, fam: &str, idx: u64) -> Value {
@@ -1068,6 +1089,25 @@ fn main() {
         eprintln!("  site [{}] {} case(s), first: {}", s["family"].as_str().unwrap_or(""), s["cases"], vcore::clip(&format!("{} :: {}", s["site"].as_str().unwrap_or(""), s["first_case"]["what"].as_str().unwrap_or("")), 400));
     }
     ctx.extra("panic_sites", json!(sites));
+    // Ctx::finish writes replay files for the six failing cases with the smallest indices only; every
+    // distinct site gets its own replay file here (prefix C10s-, same format, same `--replay` use).
+    if ctx.replay.is_none() && ctx.only_family.is_none() {
+        let dir = std::path::PathBuf::from(std::env::var("VERIF_OUT").unwrap_or_else(|_| "/verif".into())).join("replays");
+        let _ = std::fs::create_dir_all(&dir);
+        if let Ok(rd) = std::fs::read_dir(&dir) {
+            for e in rd.flatten() {
+                if e.file_name().to_string_lossy().starts_with("C10s-") {
+                    let _ = std::fs::remove_file(e.path());
+                }
+            }
+        }
+        for (k, (fam, f)) in SITE_REPLAYS.lock().unwrap().iter().enumerate() {
+            let p = dir.join(format!("C10s-{}.json", k + 1));
+            let v = json!({"property": "C10", "family": fam, "idx": f.idx, "case": f.case, "expected": f.expected, "observed": f.observed, "note": f.note, "replay": format!("./check C10 --replay {}", p.display())});
+            let _ = std::fs::write(&p, serde_json::to_string_pretty(&v).unwrap());
+            eprintln!("  distinct failing site {}: {} -> {}", k + 1, vcore::clip(&f.observed, 140), p.display());
+        }
+    }
     ctx.require("faulted_tfm_passes_size_checks", "faulted byte strings whose size table is still consistent (the reader goes past the header checks)");
     ctx.require("faulted_pl_with_balanced_parentheses", "faulted texts that are still balanced property lists (the parser goes past the structure checks)");
     ctx.require("faulted_pl_with_unbalanced_parentheses", "faulted texts with unbalanced parentheses");
